@@ -327,4 +327,81 @@ static inline void filt_all(int per, unsigned start, long count, unsigned seed) 
         }
     });
 }
+
+// ---------------------------------------------------------------------------------------------
+// the view as the SOURCE of an assignment to a 2-D / 3-D range view of a larger tensor: the consumer
+// asks the view for element (i,k) [eval_s(i,k), eval(i,k)] or for a multi-index [teval_s(as), teval(as)].
+// Window 0 = B (larger than the view by a margin), 1 = A.  Also calls these members directly and
+// digests what they return: E2S / TES scalar forms over all positions, E2V / TEV every lane of the
+// vector forms at the positions a consumer may ask for.
+template<typename T> static inline uint64_t dg(uint64_t h, const T& x) { h = hstep(h, peval(pool.v[x.h], 0)); return hstep(h, peval(pool.v[x.h], 1)); }
+template<typename T, typename Int0, typename Int1, size_t R, size_t C, size_t M, size_t N, int DYN, int CST>
+static inline void to2d(const char* i0s, const char* i1s) {
+    using namespace Fastor;
+    std::vector<long> i0 = parse(i0s), i1 = parse(i1s);
+    Tensor<Int0,M> it0; fill_idx(it0, i0); Tensor<Int1,N> it1; fill_idx(it1, i1);
+    std::printf("rview2 cfg=%s sz=%d r=%zu c=%zu m=%zu n=%zu i0=%s i1=%s ity=%s/%s dyn=%d cst=%d", CFGNAME, (int)sizeof(T), R, C, M, N, join(i0).c_str(), join(i1).c_str(),
+                ityn<Int0>::n(), ityn<Int1>::n(), DYN, CST);
+    std::fflush(stdout);
+    Case<T>::begin();
+    using BT = Tensor<T,M+1,N+2>; using PT = Tensor<T,R,C>;
+    BT* B = arena_tensor<BT>(0); PT* A = arena_tensor<PT>(1);
+    typename std::conditional<CST, const PT&, PT&>::type a = *A;
+    vf::trace.clear(); vf::trace.on = true;
+    if (DYN) (*B)(seq(0, (int)M), seq(0, (int)N)) = a(it0, it1);
+    else (*B)(fseq<0,(int)M>(), fseq<0,(int)N>()) = a(it0, it1);
+    vf::trace.on = false;
+    auto s = summarise(0, g_verbose);
+    bool ok = true; long bad = -1;
+    for (size_t i = 0; i < M + 1 && ok; ++i) for (size_t k = 0; k < N + 2 && ok; ++k) {
+        Poly want = (i < M && k < N) ? tokp(1, i0[i] * (long)C + i1[k]) : tokp(0, i * (N + 2) + k);
+        if (want != pool.v[B->data()[i * (N + 2) + k].h]) { ok = false; bad = i * (N + 2) + k; }
+    }
+    auto vw = a(it0, it1);
+    constexpr size_t V = PT::simd_vector_type::Size;
+    uint64_t e2s = 0, e2v = 0;
+    for (size_t i = 0; i < M; ++i) for (size_t k = 0; k < N; ++k) {
+        e2s = dg(e2s, vw.template eval_s<T>(i, k));
+        if (k + V <= N) { auto vec = vw.template eval<T>(i, k); for (size_t l = 0; l < V; ++l) e2v = dg(e2v, vec[l]); }
+    }
+    std::printf(" | V=%d VAL=%s NW=%ld E2S=%s E2V=%s OOB=%ld ORACLE=%s", (int)V, hex16(val_digest(B->data(), (M + 1) * (N + 2))).c_str(), s.nw,
+                hex16(e2s).c_str(), hex16(e2v).c_str(), s.oob, ok ? "ok" : "FAIL");
+    if (!ok) std::printf(" bad=%ld", bad);
+    std::printf("\n");
+}
+template<typename T, typename Int, size_t D0, size_t D1, size_t D2, size_t P0, size_t P1, size_t P2, int DYN, int CST>
+static inline void to3d(const char* i0s) {
+    using namespace Fastor;
+    std::vector<long> i0 = parse(i0s);
+    Tensor<Int,P0,P1,P2> it; fill_idx(it, i0);
+    std::printf("rview3 cfg=%s sz=%d d0=%zu d1=%zu d2=%zu p0=%zu p1=%zu p2=%zu i0=%s ity=%s dyn=%d cst=%d", CFGNAME, (int)sizeof(T), D0, D1, D2, P0, P1, P2, join(i0).c_str(), ityn<Int>::n(), DYN, CST);
+    std::fflush(stdout);
+    Case<T>::begin();
+    using BT = Tensor<T,P0+1,P1+1,P2+2>; using PT = Tensor<T,D0,D1,D2>;
+    BT* B = arena_tensor<BT>(0); PT* A = arena_tensor<PT>(1);
+    typename std::conditional<CST, const PT&, PT&>::type a = *A;
+    vf::trace.clear(); vf::trace.on = true;
+    if (DYN) (*B)(seq(0, (int)P0), seq(0, (int)P1), seq(0, (int)P2)) = a(it);
+    else (*B)(fseq<0,(int)P0>(), fseq<0,(int)P1>(), fseq<0,(int)P2>()) = a(it);
+    vf::trace.on = false;
+    auto s = summarise(0, g_verbose);
+    bool ok = true; long bad = -1;
+    for (size_t x = 0; x < P0 + 1 && ok; ++x) for (size_t y = 0; y < P1 + 1 && ok; ++y) for (size_t z = 0; z < P2 + 2 && ok; ++z) {
+        size_t q = (x * (P1 + 1) + y) * (P2 + 2) + z;
+        Poly want = (x < P0 && y < P1 && z < P2) ? tokp(1, i0[(x * P1 + y) * P2 + z]) : tokp(0, q);
+        if (want != pool.v[B->data()[q].h]) { ok = false; bad = q; }
+    }
+    auto vw = a(it);
+    constexpr size_t V = PT::simd_vector_type::Size;
+    uint64_t tes = 0, tev = 0;
+    for (size_t x = 0; x < P0; ++x) for (size_t y = 0; y < P1; ++y) for (size_t z = 0; z < P2; ++z) {
+        std::array<int,3> as = {(int)x, (int)y, (int)z};
+        tes = dg(tes, vw.template teval_s<T>(as));
+        if (z + V <= P2) { auto vec = vw.template teval<T>(as); for (size_t l = 0; l < V; ++l) tev = dg(tev, vec[l]); }
+    }
+    std::printf(" | V=%d VAL=%s NW=%ld TES=%s TEV=%s OOB=%ld ORACLE=%s", (int)V, hex16(val_digest(B->data(), (P0 + 1) * (P1 + 1) * (P2 + 2))).c_str(), s.nw,
+                hex16(tes).c_str(), hex16(tev).c_str(), s.oob, ok ? "ok" : "FAIL");
+    if (!ok) std::printf(" bad=%ld", bad);
+    std::printf("\n");
+}
 } // namespace rv
